@@ -4,6 +4,7 @@
 # seeded patch applied (VERIF_REPO), prints each exit code, removes the copy.
 set -u
 what="$1"; shift
+case "$what" in revert:*) ;; /*) ;; *) what="$(pwd)/$what" ;; esac
 d=$(mktemp -d /tmp/seedrepo.XXXXXX)
 git -C /repo worktree add -q --detach "$d/repo" HEAD || exit 2
 case "$what" in
